@@ -89,3 +89,22 @@ PROPS["C08"] = dict(
     rule="cases = steps of random operation histories (axpy/add/sub/iadd/scale/dot/vdot/norm/max/get/set/set_wfn/"
          "empty_copy/deepcopy/mismatched operands); every step is non-trivial (state differs); distinct by (history, step)",
 )
+
+PROPS["C09"] = dict(
+    level="proof",
+    technique="Lean 4 theorems (accept iff possible, fixed-N / fixed-Sz sector sets exactly as promised, number "
+              "operator = occupation, T^2 = (-1)^N) + exhaustive constructor box and exact operator-value "
+              "correspondence against the Spec operators on both code paths",
+    text="The sector bookkeeping model is proved to accept exactly the possible (nele, m_s, norb) and to produce exactly "
+         "the promised sector sets; the whole argument box (including impossible values) is executed against the real "
+         "constructors with shapes; N, Sz, S^2 (written out as S-S+ + Sz + Sz^2 in ladder operators) expectation and "
+         "transition values are compared with the Spec driver exactly; time reversal with the model phase; <N>,<Sz>,<S^2> "
+         "are checked constant under spin-free evolution.",
+    note="Lean kernel; S^2's closed formula and [H,S^2]=0 are not theorems (decided by the correspondence, norb<=3/4); "
+         "time reversal is specified by its action on determinants (Kramers pairing alpha<->beta with conjugation).",
+    design_ref="DESIGN.md §5 C09",
+    rule="cases = every (nele, m_s, norb) in the box norb<=4 (6 thorough), nele in -1..2norb+1, m_s in -norb-1..norb+1 for "
+         "each constructor (exhaustive), plus random (bra, ket) pairs per operator, plus evolution runs; non-trivial = "
+         "valid sector / non-empty promised set / operator value case; distinct by arguments",
+    exhaustive_note="constructor box enumerated completely",
+)
